@@ -1,6 +1,7 @@
 (* C14 — max_time: no step is started once more than T seconds have elapsed.
    Only statements; proofs live in proofs/C14_proofs.v. *)
 Require Import Base StopRun Converter Driver DriverObs DriverFacts StopFacts C14_proofs PyPrims PyPrimsQ DriverGen DriverTie.
+Require Import SearchGen SearchTie.
 
 (* for every optimizer, objective, clock function (any readings, monotone or not), T > 0, n_iter:
    rows = first k such that the reading taken by the check after step k exceeds start + T, else n_iter *)
@@ -33,3 +34,20 @@ Theorem C14_source_check_refines : forall clk k c pa pr start best sl,
   end.
 Proof. exact check_tie. Qed.
 Print Assumptions C14_source_check_refines.
+
+(* C14 for a call whose loop is the code GENERATED from search.py (model init_search, generated loop, model finish_search) *)
+Theorem C14_source_search_max_time_exact : forall (OP : optimizer) sp f clk pa pr (s : drv OP) (c : call) (g : g_search (drv OP)) k g' k' s' (T0 : Z),
+  init_search sp clk s c = Ok (abs g k) ->
+  ties g -> stop_wf pa pr g -> stop_shape pa pr g -> gs_n_init_search g <= 0 -> gs_n_iter g = c_n_iter c -> 0 <= c_n_iter c ->
+  g_Search_search_loop (drv OP) (inner_score sp f) clk k g (c_n_iter c) = Ok (g', k') ->
+  finish_search sp (abs g' k') = Ok s' ->
+  c_stop c = mkStop (Some T0) None None -> 0 < T0 ->
+  exists j : nat,
+    length (d_rows s') = (length (d_rows s) + j)%nat /\ Z.of_nat j <= c_n_iter c /\
+    (forall i, (i + 1 < j)%nat -> elapsed_after clk (d_clk s) i <= T0) /\
+    (Z.of_nat j = c_n_iter c \/ (0 < j)%nat /\ T0 < elapsed_after clk (d_clk s) (j - 1)).
+Proof.
+  intros OP sp f clk pa pr s c g k g' k' s' T0 HI T WF SH NI NN N0 HL HF HC HT.
+  apply (@C14_holds OP sp f clk s s' c T0 HC HT N0). eapply source_search_is_model_search; eassumption.
+Qed.
+Print Assumptions C14_source_search_max_time_exact.
